@@ -17,3 +17,150 @@ Theorem C11_identity_from_connection :
   exec current_table w k cl1 c = exec current_table w k cl2 c.
 Proof. exact identity_from_connection. Qed.
 Print Assumptions C11_identity_from_connection.
+
+(* the same with command.SendNotifyToClientHandler (C2C notification; in the anchored files, not registered by the server
+   today) added to the table *)
+Theorem C11_identity_from_connection_with_notify :
+  forall (w : world) (k : connkind) (cl1 cl2 : claim) (c : cmd),
+  exec (current_table ++ [aux_row_current]) w k cl1 c = exec (current_table ++ [aux_row_current]) w k cl2 c.
+Proof. exact identity_from_connection_notify. Qed.
+Print Assumptions C11_identity_from_connection_with_notify.
+
+(* unauth_refused: on a connection that has proven no identity (unknown id, fresh, handshake pending, or the closed
+   connection of a client) NO command of the 256 x 2 changes the world, discloses an object or writes a packet to another
+   client.  World invariant: client id 0 has no control connection and owns no HTTP domain. *)
+Theorem C11_unauth_refused :
+  forall (w : world) (k : connkind) (cl : claim) (c : cmd),
+  wf_world w -> conn_identity w k = 0 ->
+  let r := exec current_table w k cl c in
+  res_world r = w /\ res_deliv r = [] /\ res_dm r = [] /\ res_dc r = [] /\ res_dd r = [].
+Proof. exact unauth_refused. Qed.
+Print Assumptions C11_unauth_refused.
+
+Theorem C11_unauth_refused_with_notify :
+  forall (w : world) (k : connkind) (cl : claim) (c : cmd),
+  wf_world w -> conn_identity w k = 0 ->
+  let r := exec (current_table ++ [aux_row_current]) w k cl c in
+  res_world r = w /\ res_deliv r = [] /\ res_dm r = [] /\ res_dc r = [] /\ res_dd r = [].
+Proof. exact unauth_refused_notify. Qed.
+Print Assumptions C11_unauth_refused_with_notify.
+
+(* which connection classes prove nothing *)
+Theorem C11_unauthenticated_classes :
+  forall w, conn_identity w KUnknown = 0 /\ conn_identity w KFresh = 0 /\ conn_identity w KPending = 0
+  /\ (forall c, ~ In c (w_online w) -> conn_identity w (KAuth c) = 0).
+Proof. exact unauthenticated_kinds. Qed.
+Print Assumptions C11_unauthenticated_classes.
+
+(* party_only, mappings: a mapping that disappears, changes (traffic counters) or appears has the connection's identity
+   as listen or target client; every mapping id written to the sender belongs to such a mapping. *)
+Theorem C11_party_only_mappings :
+  forall (w : world) (k : connkind) (cl : claim) (c : cmd),
+  let a := conn_identity w k in let r := exec current_table w k cl c in
+  (forall m, In m (w_maps w) -> ~ In m (w_maps (res_world r)) -> a <> 0 /\ (m_listen m = a \/ m_target m = a)) /\
+  (forall m, In m (w_maps (res_world r)) -> ~ In m (w_maps w) -> a <> 0 /\ (m_listen m = a \/ m_target m = a)) /\
+  (forall i, In i (res_dm r) ->
+     exists m, In m (w_maps (res_world r)) /\ m_id m = i /\ a <> 0 /\ (m_listen m = a \/ m_target m = a)).
+Proof. exact party_only_mappings. Qed.
+Print Assumptions C11_party_only_mappings.
+
+(* party_only, codes and HTTP domains: a deleted / created / listed domain is owned by the connection's identity; a created
+   or newly activated code has it as owner resp. activator; listed codes are its own. *)
+Theorem C11_party_only_codes_domains :
+  forall (w : world) (k : connkind) (cl : claim) (c : cmd),
+  let a := conn_identity w k in let r := exec current_table w k cl c in
+  (forall d, In d (w_doms w) -> ~ In d (w_doms (res_world r)) -> d_owner d = a) /\
+  (forall d, In d (w_doms (res_world r)) -> ~ In d (w_doms w) -> d_owner d = a /\ a <> 0) /\
+  (forall i, In i (res_dd r) -> exists d, In d (w_doms (res_world r)) /\ d_id d = i /\ d_owner d = a) /\
+  (forall x, In x (w_codes (res_world r)) -> ~ In x (w_codes w) -> a <> 0 /\ (c_owner x = a \/ c_act x = a)) /\
+  (forall i, In i (res_dc r) -> exists x, In x (w_codes (res_world r)) /\ c_id x = i /\ c_owner x = a).
+Proof. exact party_only_objects. Qed.
+Print Assumptions C11_party_only_codes_domains.
+
+(* reaching another client: a packet is written to client t's control connection only if the connection's identity a is
+   non-zero and owns a mapping (listen = a, target = t) — or it is a C2C notification stamped with a itself; and the only
+   control connection a command can take down is the sender's own. *)
+Theorem C11_reach_only_own_target :
+  forall (w : world) (k : connkind) (cl : claim) (c : cmd),
+  let a := conn_identity w k in let r := exec (current_table ++ [aux_row_current]) w k cl c in
+  (forall t ty s, In (t, ty, s) (res_deliv r) ->
+     a <> 0 /\ t <> a /\ ((ty = Model.Commands.C_NotifyClient /\ s = a) \/
+                          exists m, In m (w_maps w) /\ m_listen m = a /\ m_target m = t)) /\
+  (forall x, In x (w_online w) -> ~ In x (w_online (res_world r)) -> x = a).
+Proof. exact reach_only_notify. Qed.
+Print Assumptions C11_reach_only_own_target.
+
+(* the three properties hold for ANY dispatch table whose rows carry the columns their effect class requires
+   (row_sound: identity from the connection, auth gate, party relation) — the table is data, the check is boolean *)
+Theorem C11_any_sound_table :
+  forall tbl, sound_table tbl = true ->
+  (forall w k cl1 cl2 c, exec tbl w k cl1 c = exec tbl w k cl2 c) /\
+  (forall w k cl c, wf_world w -> conn_identity w k = 0 -> inert w (exec tbl w k cl c)) /\
+  (forall w k cl c, objects_ok (conn_identity w k) w (exec tbl w k cl c)) /\
+  (forall w k cl c, reach_ok (conn_identity w k) w (exec tbl w k cl c)).
+Proof.
+  intros tbl H.
+  exact (conj (identity_from_connection_gen tbl (sound_no_packet tbl H))
+        (conj (unauth_refused_gen tbl H) (conj (party_only_objects_gen tbl H) (reach_only_gen tbl H)))).
+Qed.
+Print Assumptions C11_any_sound_table.
+
+(* the table is complete w.r.t. the real stack: all 512 (command byte, packet type) routes regenerated from /repo equal
+   the model's, and bytes outside the 19 handled ones do nothing *)
+Theorem C11_table_matches_real_dispatch :
+  length dispatch_table = 512%nat /\
+  forallb (fun e => let '(t, resp, ro) := e in route_of current_table t resp =? ro) dispatch_table = true.
+Proof. exact dispatch_table_complete. Qed.
+Print Assumptions C11_table_matches_real_dispatch.
+
+Theorem C11_unhandled_bytes_inert :
+  forall w k cl c, ~ In (k_type c) [11; 50; 70; 71; 72; 74; 75; 76; 81; 82; 83; 84; 85; 86; 87; 90; 110; 120; 121] ->
+  exec current_table w k cl c = mk false w.
+Proof. exact unhandled_inert. Qed.
+Print Assumptions C11_unhandled_bytes_inert.
+
+(* the statement (1) has content: a table that takes the identity from the packet depends on it *)
+Theorem C11_packet_identity_table_refuted :
+  exists w k cl1 cl2 c, exec forged_table w k cl1 c <> exec forged_table w k cl2 c.
+Proof. exact packet_identity_table_refuted. Qed.
+Print Assumptions C11_packet_identity_table_refuted.
+
+(* the code as found (pinned rows; repaired by fixes/C11-*.diff), kept as refuted statements *)
+Theorem C11_pinned_traffic_report_refuted :
+  exists w k cl c, conn_identity w k = 0 /\ wf_world w /\ res_world (exec pinned_table w k cl c) <> w.
+Proof. exact pinned_traffic_refuted. Qed.
+Print Assumptions C11_pinned_traffic_report_refuted.
+
+Theorem C11_pinned_dns_forward_refuted :
+  (exists w k cl c, conn_identity w k = 0 /\ res_deliv (exec pinned_table w k cl c) <> []) /\
+  (exists w k cl c, conn_identity w k = 3 /\ ~ reach_ok 3 w (exec pinned_table w k cl c)).
+Proof. exact (conj pinned_dns_refuted pinned_dns_stranger_refuted). Qed.
+Print Assumptions C11_pinned_dns_forward_refuted.
+
+Theorem C11_pinned_socks_zero_listen_refuted :
+  exists w k cl c, conn_identity w k = 0 /\ res_deliv (exec pinned_table w k cl c) <> [].
+Proof. exact pinned_socks_zero_listen_refuted. Qed.
+Print Assumptions C11_pinned_socks_zero_listen_refuted.
+
+Theorem C11_pinned_notify_refuted :
+  exists w k cl c, conn_identity w k = 0 /\
+  res_deliv (exec (pinned_table ++ [aux_row_pinned]) w k cl c) = [(2, Model.Commands.C_NotifyClient, 0)].
+Proof. exact pinned_notify_refuted. Qed.
+Print Assumptions C11_pinned_notify_refuted.
+
+(* non-vacuity: a concrete world meets the hypotheses; parties get their commands executed, the stranger and the
+   unauthenticated get nothing *)
+Theorem C11_premises_satisfiable :
+  wf_world w_demo /\ sound_table current_table = true
+  /\ conn_identity w_demo (KAuth 1) = 1 /\ conn_identity w_demo KPending = 0
+  /\ w_maps (res_world (exec current_table w_demo (KAuth 1) 0 (c_demo 76 (Some 0) None))) = tl (w_maps w_demo)
+  /\ map m_sent (w_maps (res_world (exec current_table w_demo (KAuth 2) 0 (c_demo 110 (Some 0) None)))) = [1000000; 0]
+  /\ res_deliv (exec current_table w_demo (KAuth 1) 0 (c_demo 90 (Some 0) None)) = [(2, 35, 0)]
+  /\ res_deliv (exec current_table w_demo (KAuth 1) 0 (c_demo 120 None (Some 2))) = [(2, 120, 0)]
+  /\ res_deliv (exec current_table w_demo (KAuth 1) 0 (c_demo 121 None None)) = [(2, 121, 0)]
+  /\ exec current_table w_demo (KAuth 3) 1 (c_demo 76 (Some 0) None) = mk false w_demo
+  /\ exec current_table w_demo (KAuth 3) 1 (c_demo 110 (Some 0) None) = mk false w_demo
+  /\ exec current_table w_demo (KAuth 3) 1 (c_demo 120 None (Some 2)) = mk true w_demo
+  /\ exec current_table w_demo KUnknown 1 (c_demo 90 (Some 1) None) = mk false w_demo.
+Proof. exact premises_satisfiable. Qed.
+Print Assumptions C11_premises_satisfiable.
